@@ -230,8 +230,35 @@ def h_swap_spin_kernel(env, raw=False, n=1, nctrl=2, nf=2):
                 env.equal("gradient_follows_labels_s%d_%d_%d" % (sp, g, j), d0[sp, g, j], d1[1 - sp, g, j])
 
 
+def h_swap_driver(env, kind="uks"):
+    """spin-label exchange at the PySCF driver: the real nr_uks (nr_uks_nldf) on (D_a, D_b) and on (D_b, D_a), symbolic symmetric density
+    matrices (any pair, in particular nearly equal ones): same energy, electron counts and XC matrices exchanged.  Stubs as in C01-L5, with
+    the functional stub made label-symmetric, F(a, b) = (L(a, b) + L(b, a)) / 2 for the uninterpreted leaf L (what C07 decides at the
+    eval_xc_cider level for the real functional)."""
+    from . import c01_l5
+    numint = env.m.numint
+    nldf = kind.endswith("nldf")
+    mol, Grids, NI = c01_l5.make_world(env, 2, "MGGA", nldf, spin_symmetric=True)
+    with c01_l5._Patch(numint, c01_l5._patches(env)):
+        da, db = c01_l5.sym_dm(env, "dma"), c01_l5.sym_dm(env, "dmb")
+        fn = numint.nr_uks_nldf if nldf else numint.nr_uks
+        ok, out = env.attempt("returns", lambda: fn(NI(), mol, Grids(), "PBE", (da.copy(), db.copy())))
+        if not ok:
+            return
+        n1, e1, v1 = out
+        n2, e2, v2 = fn(NI(), mol, Grids(), "PBE", (db.copy(), da.copy()))
+    env.equal("energy_unchanged_by_label_exchange", e2, e1)
+    for sp in range(2):
+        env.equal("electron_count_follows_labels_%d" % sp, n2[1 - sp], n1[sp])
+        for i in range(c01_l5.NAO):
+            for j in range(c01_l5.NAO):
+                env.equal("xc_matrix_follows_labels_s%d_%d%d" % (sp, i, j), v2[1 - sp][i, j], v1[sp][i, j])
+
+
 def _plan_tasks(tier):
     out = _plan_tasks0(tier)
+    for kind in ("uks",) + (("uks_nldf",) if tier == "thorough" else ()):
+        out.append(Task("swap/driver/nr_%s" % kind, h_swap_driver, dict(kind=kind), mods="numint", max_paths=64))
     for nf, nctrl in ((1, 1),) + (((2, 2),) if tier == "thorough" else ()):
         out.append(Task("swap/spin_kernel/SpinRBFEvaluator/nf%d_nctrl%d" % (nf, nctrl), h_swap_spin_kernel, dict(raw=False, nf=nf, nctrl=nctrl), mods="kernels", max_paths=64))
         out.append(Task("swap/spin_kernel/evaluate_se_kernel_spin_v2/nf%d_nctrl%d" % (nf, nctrl), h_swap_spin_kernel, dict(raw=True, nf=nf, nctrl=nctrl), mods="kernels", max_paths=64))
